@@ -42,3 +42,13 @@ func VerifReadSettings(fname string) (map[string]map[string]string, error) {
 	}
 	return out, nil
 }
+
+// VerifConfigMenuOn is VerifConfigMenu for a page whose URL carries the given query
+// (the menu links restore a configuration on top of the page currently shown).
+func VerifConfigMenuOn(fname, rawQuery string) [][2]string {
+	var out [][2]string
+	for _, e := range configMenu(fname, url.URL{Path: "/top", RawQuery: rawQuery}) {
+		out = append(out, [2]string{e.Name, e.URL})
+	}
+	return out
+}
